@@ -2,6 +2,10 @@
 BASE_OFF = "cd /repo && GOFLAGS=-mod=mod GOPROXY=off go test -mod=mod -json -vet=off -count=1 -timeout 25m ./..."
 
 ENGINES = [
+    dict(name="globalindex", path="specs/GlobalIndex.tla specs/GlobalIndexTrace.tla harness/areas/globalindex checks/C19.py", serves_properties=["C19"],
+         kind_free_text="TLC exhaustive on the byte-string codec spec and exporter of all zero/non-zero byte patterns; patterns x byte values, boundary, "
+                        "random and canonical values run through the real codec, real PP/FEP flows and real gRPC clients; TLC trace validation of round "
+                        "trip, bit layout and agreement of all consumers"),
     dict(name="claimcall", path="specs/ClaimCall.tla specs/ClaimCallTrace.tla harness/areas/claimcall checks/C20.py", serves_properties=["C20"],
          kind_free_text="TLC exhaustive on the findCall/setClaimCalldata stack machine over all call trees; every tree replayed as a "
                         "debug_traceTransaction answer into the real claim handlers -> ProcessBlock -> GetClaims; TLC trace validation"),
@@ -18,6 +22,17 @@ _STORE_NOTE = ("trusted: TLC; reference keccak Merkle tree / Solidity leaf packi
                "injector; bounds: H=3 and <= 7 leaves in the exhaustive model, real height 32 in replay")
 
 CHECKS = {
+    "C19": dict(
+        engine="globalindex", category="other", design_ref="DESIGN.md section 5 C19",
+        text="TLC checks GenerateGlobalIndex/DecodeGlobalIndex and the 32-byte little/big-endian forms as coded (GlobalIndex.tla, integers as byte strings) "
+             "against round trip, contract layout and agreement of all consumers for every byte string over bases 2..3 (thorough 2..5) and part sizes 1..4, and exports "
+             "all 512 zero/non-zero patterns of flag||rollup(4)||leaf(4); each pattern x {0x01,0x80,0xff,random}, all boundary triples, seeded random triples and "
+             "random canonical 65-bit on-chain values are run through the real codec, the real PP and FEP flows (claim -> imported bridge exit -> certificate, "
+             "recording signer), certificate JSON, GlobalIndex.Hash / PPHashToSign / FEPHashToSign / optimistic commitment and the real agglayer and aggchain-prover "
+             "gRPC clients (loopback servers); TLC judges every recorded line with GlobalIndexTrace.tla (16-bit limbs for the bit layout, decimal strings for equality).",
+        note="level other: TLC is enumerator and equality judge, nothing temporal; trusted: TLC, reference keccak/LE32 naming of hash-valued consumers, math/big shifts for the limb projection; "
+             "canonical on-chain values only; optimistic signer observed at CalculateCommitImportedBrdigeExitsHashFromClaims",
+        technique="TLA+ model checking (TLC) as enumerator + replay into real code + TLC trace validation"),
     "C20": dict(
         engine="claimcall", category="model_checking", design_ref="DESIGN.md section 5 C20",
         text="TLC checks the stack-based DFS of findCall/setClaimCalldata/tryDecodeClaimCalldata as coded (ClaimCall.tla) against "
